@@ -44,6 +44,7 @@ type scheduler struct {
 	wg        sync.WaitGroup
 	chanSeq   int
 	timersNondet bool
+	deterministic bool
 }
 
 var S *scheduler
